@@ -154,6 +154,8 @@ class V:
         self.sig.add((oracle, failure))
         f = dict(omp=self.omp)
         f.update(feat)
+        if "history" in feat:
+            feat = dict(feat, bufkind=getattr(self, "bufkind", "np"))
         self.res.violations.append(common.violation(oracle, failure, f, dict(part="scalars" if "history" not in feat else "history", omp=self.omp, **{k: common.jsonable(v) for k, v in feat.items()}), detail))
 
 
@@ -431,6 +433,7 @@ def build_world(omp, hist, kind="np"):
 
 def run_history(omp, first, depth, res, seed, kind="np"):
     v = V(res, omp)
+    v.bufkind = kind
     def build_world(o, h, _bw=globals()["build_world"]):
         return _bw(o, h, kind)
 
@@ -550,6 +553,21 @@ def replay(case):
     res = common.ShardResult()
     if case.get("part") == "history":
         v = V(res, case["omp"])
-        return ["replay of history cases: run the check"]
+
+        def parse(x):
+            return True if x == "True" else False if x == "False" else int(x) if x.lstrip("-").isdigit() else x
+
+        hist = [tuple(parse(x) for x in e) for e in case["history"]]
+        w = World(case["omp"], case.get("bufkind", "np"))
+        touch_world(w)
+        for ev in hist[:-1]:
+            w.apply(ev)
+            touch_world(w)
+        try:
+            w.apply(hist[-1])
+        except Exception as e:
+            return ["event-raises: %r" % (e,)]
+        check_world(w, v, res, case["history"])
+        return res.violations
     run_scalars(case["omp"], res, 0)
     return res.violations
